@@ -169,8 +169,15 @@ def r_names(c):
         kws[init[i]] = a
     P = _origin_set(kws["parameters"], coll, kwargs)
     # keys the definition is called with
+    # the variable the definition is assigned to
+    fvar = None
+    par = getattr(fdef[0], "_parent", None)
+    if isinstance(par, ast.Assign) and isinstance(par.targets[0], ast.Name):
+        fvar = par.targets[0].id
+    elif isinstance(par, ast.AnnAssign) and isinstance(par.target, ast.Name):
+        fvar = par.target.id
     calls = [x for x in ast.walk(fd) if isinstance(x, ast.Call)
-             and isinstance(x.func, ast.Name) and x.func.id == "function"]
+             and isinstance(x.func, ast.Name) and x.func.id == fvar]
     if len(calls) != 1:
         raise AnalysisError("trace_call: final call of the function definition not found")
     B = set()
